@@ -167,8 +167,20 @@ Lemma cell_setcell W b a x b' a' :
   cell (setcell W b a x) b' a' =
   if (b' =? b) && (b <? length (w_bufs W)) && (a' =? a) && (a <? length (nth b (w_bufs W) [])) then x else cell W b' a'.
 Proof.
-  unfold cell, setcell; cbn. rewrite nth_upd. destruct ((b' =? b) && (b <? length (w_bufs W))) eqn:E; cbn.
-  - rewrite nth_upd. apply andb_true_iff in E. destruct E as [E _]. apply Nat.eqb_eq in E. subst. bd; auto.
+  unfold cell, setcell; cbn [w_bufs]. rewrite nth_upd.
+  destruct ((b' =? b) && (b <? length (w_bufs W))) eqn:E; cbn [andb]; [|reflexivity].
+  apply andb_true_iff in E. destruct E as [E E']. apply Nat.eqb_eq in E. subst b'. rewrite nth_upd. reflexivity.
+Qed.
+
+(** write_through_view_changes_exactly, cell form: after h(i,j) = e, ANY handle w (same block or another, any chain of
+    views) reads the new value where its element occupies the written cell, and its old value everywhere else *)
+Lemma write_exact c W v i j e w i' j' :
+  inb W v -> inr v i j ->
+  vget c (vset c W v i j e) w i' j' =
+  if (v_buf w =? v_buf v) && (vaddr w i' j' =? vaddr v i j) then adapt c w (adapt c v e) else vget c W w i' j'.
+Proof.
+  intros [B A] R. unfold vget, vset. rewrite cell_setcell. specialize (A _ _ R).
+  destruct (v_buf w =? v_buf v) eqn:E1, (vaddr w i' j' =? vaddr v i j) eqn:E2; cbn; bd; auto; try lia.
 Show.
 
 Abort.
